@@ -3,6 +3,7 @@
 #include "util/bit_packing.hh"
 #include "util/sorted_uniform.hh"
 #include "util/probing_hash_table.hh"
+#include "lm/trie.hh"
 
 #include <cstdio>
 #include <cstdlib>
@@ -116,6 +117,30 @@ int main() {
       else r = util::BinaryFind(util::IdentityAccessor<uint64_t>(), b, b + a.size(), key, out);
       if (r) { if (cmd == "S64") o << (*out == key ? "T" : "T-WRONG-POSITION"); else o << "T " << std::hex << (out - b); }
       else o << "F";
+    } else if (cmd == "TA") {
+      // lm/trie.cc BitPackedLongest as an array: TA <max_vocab> <payload bits> <payload:word>...  (words strictly increasing)
+      // exactly Size() bytes are handed over, followed by a guard region that must stay untouched
+      std::string mv, qb, x; in >> mv >> qb; uint64_t max_vocab = hx(mv); uint8_t quant = hx(qb);
+      std::vector<std::pair<uint64_t, uint64_t> > recs;
+      while (in >> x) { size_t c = x.find(':'); recs.push_back(std::make_pair(hx(x.substr(0, c)), hx(x.substr(c + 1)))); }
+      uint64_t size = lm::ngram::trie::BitPackedLongest::Size(quant, recs.size(), max_vocab);
+      const size_t guard = 32;
+      std::vector<unsigned char> mem(size + guard, 0);
+      for (size_t i = 0; i < guard; ++i) mem[size + i] = 0xa5;
+      lm::ngram::trie::BitPackedLongest arr; arr.Init(&mem[0], quant, max_vocab);
+      for (size_t i = 0; i < recs.size(); ++i) {
+        util::BitAddress a = arr.Insert(recs[i].second);
+        util::WriteInt57(a.base, a.offset, quant, recs[i].first);
+      }
+      bool guard_ok = true;
+      for (size_t i = 0; i < guard; ++i) if (mem[size + i] != 0xa5) guard_ok = false;
+      o << std::hex << size << (guard_ok ? " guard-ok" : " GUARD-OVERWRITTEN");
+      lm::ngram::trie::NodeRange range; range.begin = 0; range.end = recs.size();
+      for (size_t i = 0; i < recs.size(); ++i) {
+        util::BitAddress a = arr.Find(recs[i].second, range);
+        if (!a.base) { o << " lost:" << std::hex << recs[i].second; continue; }
+        o << ' ' << std::hex << util::ReadInt57(a.base, a.offset, quant, (1ULL << quant) - 1);
+      }
     } else o << "?";
     std::cout << o.str() << '\n';
   }
